@@ -1,5 +1,5 @@
 From Coq Require Import Arith List String Extraction ExtrOcamlBasic.
-From FEC Require Import Models.PackingM Models.LayoutM Models.LayoutTables.
+From FEC Require Import Models.PackingM Models.LayoutM Models.LayoutValuesM Models.LayoutTables.
 Extraction Language OCaml.
 Set Extraction Output Directory ".".
-Extraction "c02_x.ml" c02_layout_mismatches c02_readme_violations c02_float_violations.
+Extraction "c02_x.ml" c02_layout_mismatches c02_readme_violations c02_float_violations c02_value_mismatches.
